@@ -130,7 +130,8 @@ def configure_v2(config: dict[str, Any]) -> None:
     # Handle non-orthogonality
 
     # If grid["filename"] is missing, use forcing["filename"]
-    if "module" not in config["grid"]:
+    if "module" not in config["grid"] and "module" in config["forcing"]:
+        # (without a forcing module both sections use the default module)
         config["grid"]["module"] = config["forcing"]["module"]
     if "filename" not in config["grid"]:
         filename = Path(config["forcing"]["filename"])
